@@ -196,7 +196,7 @@ impl Check for Forwarder {
         Some(Step::Advance { n })
     }
     fn probes(&self, _prop: &str) -> std::vec::Vec<&'static str> {
-        vec!["probe.fees_swept", "probe.forward_as_forwarder", "probe.forward_as_forwarder_while_it_holds_fees"]
+        vec!["probe.forward_expired_with_allowance_exactly_at_max", "probe.forward_with_allowance_exactly_at_max", "probe.fees_swept", "probe.forward_as_forwarder", "probe.forward_as_forwarder_while_it_holds_fees"]
     }
     fn dup_ok(&self, _s: &Step) -> bool {
         true
@@ -218,7 +218,9 @@ impl Check for Forwarder {
                     0..=7 => Step::Fund { token, amt: 1 + rng.below(100_000) as i128 },
                     8..=15 => Step::PreApprove { token, amt: match rng.below(4) { 0 => 0, 1 => 50, _ => 1 + rng.below(5_000) as i128 }, live_for: rng.below(30) as u32 },
                     16..=70 => {
-                        let max: i128 = match rng.below(6) { 0 => 0, 1 => -3, _ => 1 + rng.below(2_000) as i128 };
+                        // a quarter of the forwards with a live pre-existing allowance aim the maximum at it: exactly at, one below, one above
+                        let live_al = m.al(token);
+                        let max: i128 = if live_al > 0 && rng.chance(25) { live_al + rng.below(3) as i128 - 1 } else { match rng.below(6) { 0 => 0, 1 => -3, _ => 1 + rng.below(2_000) as i128 } };
                         let fee = match rng.below(8) { 0 => 0, 1 => -1, 2 => max + 1, 3 => max, 4 => m.b(token, 0) + 1, _ => if max > 0 { 1 + rng.below(max as u64) as i128 } else { 1 } };
                         let exp_rel = match rng.below(8) { 0 => -1, 1 => 0, 2 => MAX_TTL as i64, 3 => MAX_TTL as i64 + 1, _ => 1 + rng.below(50) as i64 };
                         let tamper = if rng.chance(12) { *rng.pick(&[Tamper::Target, Tamper::Args, Tamper::Token, Tamper::Max, Tamper::Exp]) } else { Tamper::None };
@@ -382,6 +384,9 @@ impl Check for Forwarder {
                     }
                     w.set_auth(&entries);
                     let got = e.try_invoke_contract::<Val, soroban_sdk::Error>(&fwd, &Symbol::new(e, "forward"), full).map(|r| r.is_ok()).unwrap_or(false);
+                    if *max > 0 && m.al(*token) == *max {
+                        st.hit(if *exp_rel < 0 { "probe.forward_expired_with_allowance_exactly_at_max" } else { "probe.forward_with_allowance_exactly_at_max" });
+                    }
                     let expd = m.forward(cfg, s);
                     outcome = Some((got, expd));
                     if got {
